@@ -1,2 +1,3 @@
 import YataDriver.Util
 import YataDriver.Window
+import YataDriver.Methods
